@@ -375,6 +375,106 @@ func showEls(s []el) string {
 	return "[" + strings.Join(t, " ") + "]"
 }
 
+// checkSortCase runs one of Sort/Min/Max of one container on one input and judges the result.
+func checkSortCase(x *mc.X, c container, o sortOrd, op string, in fp.Seq[el]) {
+	x.Tag(c.pkg + "." + op + " with " + o.name)
+	call := func(what string, f func()) {
+		if p := mc.Catch(f); p != nil {
+			x.Fail(c.pkg+"."+what+"/panic", "%s.%s(%s, %s) panicked: %v", c.pkg, what, showEls(in), o.name, p)
+		}
+	}
+	var out fp.Seq[el]
+	var mn, mx fp.Option[el]
+	switch op {
+	case "Sort":
+		call("Sort", func() { out = c.sort(in, o.o) })
+		x.Logf("%s.Sort(%s, %s) = %s", c.pkg, showEls(in), o.name, showEls(out))
+		if multiset(out) != multiset(in) {
+			x.Fail(c.pkg+".Sort/not-a-permutation", "%s.Sort(%s, %s) = %s is not a permutation of the input", c.pkg, showEls(in), o.name, showEls(out))
+		}
+		for i := 0; i+1 < len(out); i++ {
+			if o.cmp(out[i], out[i+1]) > 0 {
+				x.Fail(c.pkg+".Sort/not-ordered", "%s.Sort(%s, %s) = %s: element %d is greater than element %d", c.pkg, showEls(in), o.name, showEls(out), i, i+1)
+			}
+		}
+	case "Min":
+		call("Min", func() { mn = c.min(in, o.o) })
+		x.Logf("%s.Min(%s, %s) = %v", c.pkg, showEls(in), o.name, mn)
+	case "Max":
+		call("Max", func() { mx = c.max(in, o.o) })
+		x.Logf("%s.Max(%s, %s) = %v", c.pkg, showEls(in), o.name, mx)
+	}
+	checkExt := func(what string, got fp.Option[el], dir int) {
+		if len(in) == 0 {
+			if got.IsDefined() {
+				x.Fail(c.pkg+"."+what+"/some-for-empty", "%s.%s of the empty input = %v, want None", c.pkg, what, got)
+			}
+			return
+		}
+		if got.IsEmpty() {
+			x.Fail(c.pkg+"."+what+"/none-for-nonempty", "%s.%s(%s, %s) = None", c.pkg, what, showEls(in), o.name)
+		}
+		g, member := got.Get(), false
+		for _, e := range in {
+			if e == g {
+				member = true
+			}
+			if dir*o.cmp(e, g) < 0 {
+				x.Fail(c.pkg+"."+what+"/not-extremal", "%s.%s(%s, %s) = %v but %v is beyond it", c.pkg, what, showEls(in), o.name, g, e)
+			}
+		}
+		if !member {
+			x.Fail(c.pkg+"."+what+"/not-an-element", "%s.%s(%s, %s) = %v is not an element of the input", c.pkg, what, showEls(in), o.name, g)
+		}
+	}
+	switch op {
+	case "Min":
+		checkExt("Min", mn, 1)
+	case "Max":
+		checkExt("Max", mx, -1)
+	}
+	x.Observe(op, o.name, showEls(out), mn, mx)
+	inv, ties := false, false
+	for i := range in {
+		for j := i + 1; j < len(in); j++ {
+			if o.cmp(in[i], in[j]) > 0 {
+				inv = true
+			}
+			if o.cmp(in[i], in[j]) == 0 && in[i] != in[j] {
+				ties = true
+			}
+		}
+	}
+	if inv {
+		x.NonTrivial()
+		x.Tag("sort: input has an inversion")
+	}
+	if ties {
+		x.Tag("sort: input has distinguishable elements that tie under the Ord")
+	}
+}
+
+// sortLongScenario: sorting and selection algorithms often switch strategy at 8/12/16/32/64
+// elements, so every container x Ord x {Sort, Min, Max} is also run on ONE position-tagged input
+// per length 0..maxLen: the keys are a fixed scrambled sequence with ties, the payload is the index.
+func sortLongScenario(r *mc.Registry, maxLen int) {
+	cs := containers()
+	nOrds := len(sortOrds())
+	sc := r.Seq("sort-long", func(x *mc.X) {
+		c := cs[x.Choose(len(cs), "container")]
+		o := sortOrds()[x.Choose(nOrds, "ord")]
+		op := mc.Pick(x, "operation", []string{"Sort", "Min", "Max"})
+		n := x.Choose(maxLen+1, "length")
+		in := make(fp.Seq[el], n)
+		for i := range in {
+			in[i] = as.Tuple2((i*37+11)%17, fmt.Sprintf("#%d", i))
+		}
+		checkSortCase(x, c, o, op, in)
+		x.Tag("sort-long: position-tagged input")
+	})
+	sc.SplitDepth = 3
+}
+
 func sortScenario(r *mc.Registry, maxLen int) {
 	var alphabet []el
 	for k := 0; k < 3; k++ {
@@ -393,88 +493,14 @@ func sortScenario(r *mc.Registry, maxLen int) {
 		for i := range in {
 			in[i] = mc.Pick(x, "element", alphabet)
 		}
-		x.Tag(c.pkg + "." + op + " with " + o.name)
-		call := func(what string, f func()) {
-			if p := mc.Catch(f); p != nil {
-				x.Fail(c.pkg+"."+what+"/panic", "%s.%s(%s, %s) panicked: %v", c.pkg, what, showEls(in), o.name, p)
-			}
-		}
-		var out fp.Seq[el]
-		var mn, mx fp.Option[el]
-		switch op {
-		case "Sort":
-			call("Sort", func() { out = c.sort(in, o.o) })
-			x.Logf("%s.Sort(%s, %s) = %s", c.pkg, showEls(in), o.name, showEls(out))
-			if multiset(out) != multiset(in) {
-				x.Fail(c.pkg+".Sort/not-a-permutation", "%s.Sort(%s, %s) = %s is not a permutation of the input", c.pkg, showEls(in), o.name, showEls(out))
-			}
-			for i := 0; i+1 < len(out); i++ {
-				if o.cmp(out[i], out[i+1]) > 0 {
-					x.Fail(c.pkg+".Sort/not-ordered", "%s.Sort(%s, %s) = %s: element %d is greater than element %d", c.pkg, showEls(in), o.name, showEls(out), i, i+1)
-				}
-			}
-		case "Min":
-			call("Min", func() { mn = c.min(in, o.o) })
-			x.Logf("%s.Min(%s, %s) = %v", c.pkg, showEls(in), o.name, mn)
-		case "Max":
-			call("Max", func() { mx = c.max(in, o.o) })
-			x.Logf("%s.Max(%s, %s) = %v", c.pkg, showEls(in), o.name, mx)
-		}
-		checkExt := func(what string, got fp.Option[el], dir int) {
-			if len(in) == 0 {
-				if got.IsDefined() {
-					x.Fail(c.pkg+"."+what+"/some-for-empty", "%s.%s of the empty input = %v, want None", c.pkg, what, got)
-				}
-				return
-			}
-			if got.IsEmpty() {
-				x.Fail(c.pkg+"."+what+"/none-for-nonempty", "%s.%s(%s, %s) = None", c.pkg, what, showEls(in), o.name)
-			}
-			g, member := got.Get(), false
-			for _, e := range in {
-				if e == g {
-					member = true
-				}
-				if dir*o.cmp(e, g) < 0 {
-					x.Fail(c.pkg+"."+what+"/not-extremal", "%s.%s(%s, %s) = %v but %v is beyond it", c.pkg, what, showEls(in), o.name, g, e)
-				}
-			}
-			if !member {
-				x.Fail(c.pkg+"."+what+"/not-an-element", "%s.%s(%s, %s) = %v is not an element of the input", c.pkg, what, showEls(in), o.name, g)
-			}
-		}
-		switch op {
-		case "Min":
-			checkExt("Min", mn, 1)
-		case "Max":
-			checkExt("Max", mx, -1)
-		}
-		x.Observe(op, o.name, showEls(out), mn, mx)
-		inv, ties := false, false
-		for i := range in {
-			for j := i + 1; j < len(in); j++ {
-				if o.cmp(in[i], in[j]) > 0 {
-					inv = true
-				}
-				if o.cmp(in[i], in[j]) == 0 && in[i] != in[j] {
-					ties = true
-				}
-			}
-		}
-		if inv {
-			x.NonTrivial()
-			x.Tag("sort: input has an inversion")
-		}
-		if ties {
-			x.Tag("sort: input has distinguishable elements that tie under the Ord")
-		}
+		checkSortCase(x, c, o, op, in)
 	})
 	sc.SplitDepth = 5
 }
 
 func main() {
 	mc.Main("C10", func(r *mc.Registry) {
-		r.Rule = "sort-nilable: execution = (nilable element type with its Ord | Reversed, container, Sort|Min|Max, input sequence) for ALL sequences up to the length bound over 4 values one of which is nil/None (so nil occurs in every position and any number of times); judged by a second instance of the same Ord: Sort = permutation without descent, Min/Max = Some(element that nothing is below/above), a nil element comes back as Some(nil), None only for the empty input. history: execution = (Ord instance expression, sequence of histDepth steps) for EVERY sequence over the alphabet {Compare of each ordered pair of three operands, and for operands with a mutable referent a write of new contents in place (operands 0 and 2; contents y and a value z not between x and y, so one write can flip a pair)} on ONE long-lived constructed instance; each call must equal what a freshly constructed instance answers for the current values; all library instances are constructed anew inside every execution. grammar/arity: execution = (Ord instance expression, a, b, c) over the whole value domain of the instance's type (all triples; the arity blocks take c from 3 values and a, b from all values: base, alternative representation, all-different, and differs-at-position-k-only for every k <= 12 in the quick tier and every k in the thorough tier, where pairs sharing a prefix longer than 14 get a reduced check: Less both ways and Compare against the lexicographic demand); each execution calls Less, Eqv, Compare, LessEq, Min, Max of the library's instance and checks trichotomy, transitivity, consistency and the constructor's structural demand; non-trivial = three different domain elements; distinct outcome = (instance, order pattern of the triple). sort: execution = (container, Ord, Sort|Min|Max, input sequence) for ALL sequences up to the length bound over 3 keys x 2 payloads; Sort must return a permutation ordered by the reference comparison, Min/Max any least/greatest element or None for empty; non-trivial = the input has an inversion"
+		r.Rule = "sort-long: execution = (container, Ord, Sort|Min|Max, length n) with ONE position-tagged input per length 0..70 (thorough 300), same judgement as sort; sort-nilable: execution = (nilable element type with its Ord | Reversed, container, Sort|Min|Max, input sequence) for ALL sequences up to the length bound over 4 values one of which is nil/None (so nil occurs in every position and any number of times); judged by a second instance of the same Ord: Sort = permutation without descent, Min/Max = Some(element that nothing is below/above), a nil element comes back as Some(nil), None only for the empty input. history: execution = (Ord instance expression, sequence of histDepth steps) for EVERY sequence over the alphabet {Compare of each ordered pair of three operands, and for operands with a mutable referent a write of new contents in place (operands 0 and 2; contents y and a value z not between x and y, so one write can flip a pair)} on ONE long-lived constructed instance; each call must equal what a freshly constructed instance answers for the current values; all library instances are constructed anew inside every execution. grammar/arity: execution = (Ord instance expression, a, b, c) over the whole value domain of the instance's type (all triples; the arity blocks take c from 3 values and a, b from all values: base, alternative representation, all-different, and differs-at-position-k-only for every k <= 12 in the quick tier and every k in the thorough tier, where pairs sharing a prefix longer than 14 get a reduced check: Less both ways and Compare against the lexicographic demand); each execution calls Less, Eqv, Compare, LessEq, Min, Max of the library's instance and checks trichotomy, transitivity, consistency and the constructor's structural demand; non-trivial = three different domain elements; distinct outcome = (instance, order pattern of the triple). sort: execution = (container, Ord, Sort|Min|Max, input sequence) for ALL sequences up to the length bound over 3 keys x 2 payloads; Sort must return a permutation ordered by the reference comparison, Min/Max any least/greatest element or None for empty; non-trivial = the input has an inversion"
 		r.Assumptions = []string{
 			"NaN is excluded from the float domains",
 			"which of None/Some and nil/non-nil sorts first is not fixed by the property: only that they differ, and the order laws, are demanded",
@@ -508,6 +534,11 @@ func main() {
 			nilLen = 6
 		}
 		nilCasesN := nilableScenario(r, nilLen)
+		longLen := 70
+		if r.Thorough() {
+			longLen = 300
+		}
+		sortLongScenario(r, longLen)
 		if r.Thorough() {
 			histDepth = 4
 		}
